@@ -235,6 +235,99 @@ fn check_in_place(t: &str, bytes: Option<&[u8]>) -> Result<(), String> {
     })
 }
 
+/// A deserializer that feeds the visitor through one chosen entry point, so that every `visit_*` a format may
+/// call is compared with String's behaviour (owned and borrowed str and bytes, and non-string inputs).
+#[derive(Clone, Copy, Debug)]
+enum Feed<'a> {
+    Str(&'a str),
+    BorrowedStr(&'a str),
+    String(&'a str),
+    Bytes(&'a [u8]),
+    BorrowedBytes(&'a [u8]),
+    ByteBuf(&'a [u8]),
+    Char(char),
+    U64(u64),
+    Bool(bool),
+    Unit,
+    None,
+    F64(f64),
+}
+
+impl<'de> serde::Deserializer<'de> for Feed<'de> {
+    type Error = ValueError;
+    fn deserialize_any<V: serde::de::Visitor<'de>>(self, v: V) -> Result<V::Value, ValueError> {
+        match self {
+            Feed::Str(s) => v.visit_str(s),
+            Feed::BorrowedStr(s) => v.visit_borrowed_str(s),
+            Feed::String(s) => v.visit_string(s.to_string()),
+            Feed::Bytes(b) => v.visit_bytes(b),
+            Feed::BorrowedBytes(b) => v.visit_borrowed_bytes(b),
+            Feed::ByteBuf(b) => v.visit_byte_buf(b.to_vec()),
+            Feed::Char(c) => v.visit_char(c),
+            Feed::U64(n) => v.visit_u64(n),
+            Feed::Bool(b) => v.visit_bool(b),
+            Feed::Unit => v.visit_unit(),
+            Feed::None => v.visit_none(),
+            Feed::F64(x) => v.visit_f64(x),
+        }
+    }
+    serde::forward_to_deserialize_any! {
+        bool i8 i16 i32 i64 i128 u8 u16 u32 u64 u128 f32 f64 char str string bytes byte_buf option unit unit_struct
+        newtype_struct seq tuple tuple_struct map struct enum identifier ignored_any
+    }
+}
+
+fn check_feeds(t: &str, b: &[u8]) -> Result<(), String> {
+    guard(|| {
+        let feeds = [
+            Feed::Str(t),
+            Feed::BorrowedStr(t),
+            Feed::String(t),
+            Feed::Bytes(b),
+            Feed::BorrowedBytes(b),
+            Feed::ByteBuf(b),
+            Feed::Char(t.chars().next().unwrap_or('x')),
+            Feed::U64(b.len() as u64),
+            Feed::Bool(true),
+            Feed::Unit,
+            Feed::None,
+            Feed::F64(1.5),
+        ];
+        for f in feeds {
+            let l: Result<LeanString, ValueError> = LeanString::deserialize(f);
+            let s: Result<String, ValueError> = String::deserialize(f);
+            match (&l, &s) {
+                (Ok(x), Ok(y)) if x == y => {}
+                (Err(_), Err(_)) => {}
+                _ => {
+                    return Err(format!(
+                        "deserialize through {f:?}: LeanString {:?}, String {:?}",
+                        l.map(|x| x.as_str().to_string()).map_err(|e| e.to_string()),
+                        s.map_err(|e| e.to_string())
+                    ));
+                }
+            }
+            let mut pl = LeanString::from("previous content of the place, longer than sixteen");
+            let mut ps = String::from("previous content of the place, longer than sixteen");
+            let rl: Result<(), ValueError> = Deserialize::deserialize_in_place(f, &mut pl);
+            let rs: Result<(), ValueError> = Deserialize::deserialize_in_place(f, &mut ps);
+            match (rl, rs) {
+                (Ok(()), Ok(())) if pl == ps.as_str() => {}
+                (Err(_), Err(_)) => {}
+                (a, b2) => {
+                    return Err(format!(
+                        "deserialize_in_place through {f:?}: LeanString {:?} -> {:?}, String {:?} -> {ps:?}",
+                        a.map_err(|e| e.to_string()),
+                        pl.as_str(),
+                        b2.map_err(|e| e.to_string())
+                    ));
+                }
+            }
+        }
+        Ok(())
+    })
+}
+
 fn check_json_doc(doc: &str) -> Result<(), String> {
     // any JSON text: LeanString and String accept / reject alike and agree on the text
     guard(|| {
@@ -412,6 +505,9 @@ fn c19(tier: Tier, seed: u64) -> Verdict {
             if let Err(d) = check_text(t) {
                 return (st, Some(viol(json!({"kind": "serde_text", "text": t}), "C19.serde_text", d)));
             }
+            if let Err(d) = check_feeds(t, t.as_bytes()) {
+                return (st, Some(viol(json!({"kind": "serde_text", "text": t}), "C19.visitor_entry_points", d)));
+            }
             if let Err(d) = check_in_place(t, None) {
                 return (st, Some(viol(json!({"kind": "serde_text", "text": t}), "C19.deserialize_in_place", d)));
             }
@@ -443,6 +539,9 @@ fn c19(tier: Tier, seed: u64) -> Verdict {
             }
             if let Err(d) = check_bytes(b) {
                 return (st, Some(viol(json!({"kind": "serde_bytes", "hex": hex_encode(b)}), "C19.deserialize_bytes", d)));
+            }
+            if let Err(d) = check_feeds(&String::from_utf8_lossy(b), b) {
+                return (st, Some(viol(json!({"kind": "serde_bytes", "hex": hex_encode(b)}), "C19.visitor_entry_points", d)));
             }
             if b.len() < 24 {
                 if let Err(d) = check_in_place("", Some(b)) {
@@ -478,12 +577,12 @@ fn replay(path: &str) -> i32 {
     let r = match kind {
         "serde_bytes" => {
             let b = hex_decode(case["hex"].as_str().unwrap_or(""));
-            check_bytes(&b).and_then(|_| check_in_place("", Some(&b)))
+            check_bytes(&b).and_then(|_| check_in_place("", Some(&b))).and_then(|_| check_feeds(&String::from_utf8_lossy(&b), &b))
         }
         "unstructured" => check_unstructured(&hex_decode(case["hex"].as_str().unwrap_or(""))),
         "serde_text" => {
             let t = case["text"].as_str().unwrap_or("");
-            check_text(t).and_then(|_| check_in_place(t, None)).and_then(|_| check_in_place(t, Some(t.as_bytes())))
+            check_text(t).and_then(|_| check_in_place(t, None)).and_then(|_| check_in_place(t, Some(t.as_bytes()))).and_then(|_| check_feeds(t, t.as_bytes()))
         }
         "json_doc" => check_json_doc(case["doc"].as_str().unwrap_or("")),
         _ => return 2,
